@@ -57,6 +57,9 @@ func (d *delegation) Data() ucan.View {
 		err := block.Decode(d.rt, &data, udm.Type(), cbor.Codec, sha256.Hasher)
 		if err != nil {
 			fmt.Printf("Error: decoding UCAN: %s\n", err)
+			// block.Decode fills the model before it checks that the bytes hash
+			// to the link: do not keep fields of a block that failed either check.
+			data = udm.UCANModel{}
 		}
 		d.ucan, err = ucan.NewUCAN(&data)
 		if err != nil {
